@@ -4,7 +4,8 @@ table, runs the model of `Model/DtOps.lean`, prints the timebases.
 
   dt mk     <cfg> <opnd>                 -> ok <Dt> | err <e>
   dt common <Dt> <Dt>                    -> ok <Dt> | err <e>
-  dt bin    <op> <cfg> <opnd> <opnd>     -> ok A=<Dt|-> B=<Dt|-> R=<cls>:<Dt> | … R=err:<e> | err <e>
+  dt bin    <op> <cfg> <opnd> <opnd>     (op: add sub mul div fb append lft)
+                                         -> ok A=<Dt|-> B=<Dt|-> R=<cls>:<Dt> | … R=err:<e> | err <e>
   dt un     <op> [arg] <cfg> <opnd>      -> ok A=<Dt> R=…
   dt nary   <fn> <kw> <cfg> <opnd>…      -> ok R=…          (series parallel append combine interconnect)
   dt tree   <cfg> <postfix program>      -> ok R=…
@@ -123,6 +124,7 @@ def hBin : P String := do
           match a with
           | .sys x => pure (appendDt x b cfg)
           | _ => throw "append:const-left"
+        else if opn == "lft" then pure (lftArg a b cfg)
         else throw s!"binop:{opn}")
     pure s!"ok A={showArgDt a} B={showArgDt b} {showRes r}"
   | .error e, _ => pure (showErr e)
